@@ -16,13 +16,14 @@ CONSTANTS NC,        \* number of classes
           Pages,     \* set of pages (sets of classes) a render may use
           Modes,     \* subset of {"document", "fragment"}
           MaxLen,    \* histories of at most MaxLen actions
-          Ext,       \* subset of {"split", "redef"}: extra actions
+          Ext,       \* subset of {"split", "redef", "url"}: extra actions
+          UrlCfgs,   \* URL configurations ("<script prefix>/<URLconf>") SetUrl may activate
           MaxVer,    \* bound on redefinitions
           Devs,      \* enabled named deviations
           ReqKinds, ReqInputs, ReqMethods   \* request alphabet of the exported table
 
 VARIABLES hist, tainted, last
-mcVars == <<conf, cache, ver, held, kept, emitted, resp, hist, tainted, last>>
+mcVars == <<conf, cache, ver, held, kept, emitted, resp, url, eloc, hist, tainted, last>>
 
 Pow8(n) == IF n = 0 THEN 1 ELSE IF n = 1 THEN 8 ELSE IF n = 2 THEN 64 ELSE IF n = 3 THEN 512 ELSE 4096
 Dec(x) == [js |-> x % 2 = 1, css |-> (x \div 2) % 2 = 1, vars |-> (x \div 4) % 2 = 1]
@@ -33,7 +34,7 @@ SetToSeq(S) == LET RECURSIVE go(_)
                             ELSE LET x == CHOOSE y \in T : \A z \in T : y <= z IN <<x>> \o go(T \ {x})
                IN go(S)
 
-Act(op, page, mode, c, res) == [op |-> op, page |-> SetToSeq(page), mode |-> mode, c |-> c, res |-> res]
+Act(op, page, mode, c, res, u) == [op |-> op, page |-> SetToSeq(page), mode |-> mode, c |-> c, res |-> res, u |-> u]
 
 MCInit == /\ SEInit(ConfC) /\ hist = <<>> /\ tainted = FALSE
           /\ last = [pcache |-> {}, name |-> ""]
@@ -51,19 +52,23 @@ Dev_FinishEmitsUnserved(page) ==
   /\ ~(Need(conf, page) \subseteq cache)
   /\ emitted' = Need(conf, page) /\ resp' = NoResp
   /\ UNCHANGED <<conf, cache, ver, held, kept>>
+  /\ UrlKeep
 
 MCNext ==
-  \/ \E p \in Pages, m \in Modes : Render(p, m) /\ Log(Act("render", p, m, 0, "ok"), "")
-  \/ ClearCache /\ Log(Act("clear", {}, "", 0, "ok"), "")
+  \/ \E p \in Pages, m \in Modes : Render(p, m) /\ Log(Act("render", p, m, 0, "ok", ""), "")
+  \/ ClearCache /\ Log(Act("clear", {}, "", 0, "ok", ""), "")
   \/ /\ "split" \in Ext
-     /\ \/ \E p \in Pages : p \notin held /\ Prerender(p) /\ Log(Act("prerender", p, "", 0, "ok"), "")
-        \/ \E p \in Pages, m \in Modes : FinishOk(p, m) /\ Log(Act("finish", p, m, 0, "ok"), "")
-        \/ \E p \in Pages, m \in Modes : FinishFail(p, m) /\ Log(Act("finish", p, m, 0, "fail"), "")
+     /\ \/ \E p \in Pages : p \notin held /\ Prerender(p) /\ Log(Act("prerender", p, "", 0, "ok", ""), "")
+        \/ \E p \in Pages, m \in Modes : FinishOk(p, m) /\ Log(Act("finish", p, m, 0, "ok", ""), "")
+        \/ \E p \in Pages, m \in Modes : FinishFail(p, m) /\ Log(Act("finish", p, m, 0, "fail", ""), "")
         \/ /\ DevFinish \in Devs
-           /\ \E p \in Pages : Dev_FinishEmitsUnserved(p) /\ Log(Act("finish", p, "fragment", 0, "dev"), DevFinish)
+           /\ \E p \in Pages : Dev_FinishEmitsUnserved(p) /\ Log(Act("finish", p, "fragment", 0, "dev", ""), DevFinish)
   \/ /\ "redef" \in Ext
      /\ \E c \in 1..NC : /\ ver[c] < MaxVer /\ KindsOf(conf, c) # {}
-                         /\ Redefine(c) /\ Log(Act("redefine", {}, "", c, "ok"), "")
+                         /\ Redefine(c) /\ Log(Act("redefine", {}, "", c, "ok", ""), "")
+
+  \/ /\ "url" \in Ext
+     /\ \E u \in UrlCfgs : u # url /\ SetUrl(u) /\ Log(Act("seturl", {}, "", 0, "ok", u), "")
 
 MCSpec == MCInit /\ [][MCNext]_mcVars
 
@@ -73,7 +78,7 @@ InvEmittedAreServed == tainted \/ EmittedAreServed
 InvMustServeDetermined == MustServeDetermined
 InvAnswersSane == AnswersSane(Reqs)
 InvKeptCoversCache == tainted \/ \A e \in cache : \E p \in kept : p[1] = e
-MCRenderRecaches == [][tainted' \/ (emitted' # {} => emitted' \subseteq cache')]_mcVars
+MCRenderRecaches == [][tainted' \/ (emitted' # {} => emitted' \subseteq cache' /\ eloc' = url')]_mcVars
 MCOnlyClearDrops == [][cache \subseteq cache' \/ cache' = {} \/ ver' # ver]_mcVars
 
 (* ---- deviations of single answers (no state change) ---------------------- *)
@@ -102,7 +107,7 @@ Table == {Row(r) : r \in Reqs}
 Export ==
   \/ hist = <<>>
   \/ Serialize(ToJson([hist |-> hist, conf |-> conf, emitted |-> emitted, must |-> cache,
-                       ver |-> ver, dev |-> last.name, tainted |-> tainted,
+                       ver |-> ver, dev |-> last.name, tainted |-> tainted, url |-> url, eloc |-> eloc,
                        dead |-> IF last.name = DevFinish THEN emitted \ last.pcache ELSE {},
                        table |-> Table, ct |-> CT]) \o "\n",
                IOEnv.OUT, [format |-> "TXT", charset |-> "UTF-8",
